@@ -975,6 +975,10 @@ fn add_jitter(delay: &u64) -> Duration {
 
     // Calculate jitter as a random value in the range of +/- MAX_JITTER_PERCENT of the delay.
     let max_jitter = delay.saturating_mul(MAX_JITTER_PERCENT * 2) / 100;
+    // Delays of 1 and 2 ms are too small to jitter: the range is empty.
+    if max_jitter == 0 {
+        return Duration::from_millis(*delay);
+    }
     let jitter = rand::random::<u64>() % max_jitter;
 
     Duration::from_millis(delay.saturating_sub(max_jitter / 2).saturating_add(jitter))
